@@ -14,7 +14,7 @@ NF = 3
 def all_cases(tier):
     out = []
     for ep, nb, vb, ev, cb, init in itertools.product((0, 1, 2, 3), (1, 2, 3), (None, 1, 2), (None, "binary", "multi-class", "categorical", "multi-class+callbacks"),
-                                                       (False, True, "flip"), ("train", "eval", "train+bn_eval", "eval+dropout_train")):
+                                                       (False, True, "flip", "peek"), ("train", "eval", "train+bn_eval", "eval+dropout_train")):
         out.append({"epochs": ep, "train_batches": nb, "val_batches": vb, "evaluator": ev, "callbacks": cb, "initial_mode": init})
     return out
 
@@ -101,6 +101,10 @@ def judge(case):
         # callbacks that leave the model in the wrong mode (e.g. a callback that evaluates a probe set, or re-enables training)
         cbs = {"on_train_epoch": lambda m, l: (trace.append(("cb_train",)), m.eval()),
                "on_validation_epoch": lambda m, l: (trace.append(("cb_val",)), m.train())}
+    elif case["callbacks"] == "peek":
+        # callbacks that look at the first batch of the loader they are handed (fit passes it for that purpose) and stop there
+        cbs = {"on_train_epoch": lambda m, l: (trace.append(("cb_train",)), next(iter(l))),
+               "on_validation_epoch": lambda m, l: (trace.append(("cb_val",)), next(iter(l)))}
     elif case["callbacks"]:
         cbs = {"on_train_epoch": lambda m, l: trace.append(("cb_train",)), "on_validation_epoch": lambda m, l: trace.append(("cb_val",))}
     model.train() if case["initial_mode"].startswith("train") else model.eval()
@@ -236,7 +240,7 @@ def run(tier, seed):
     cov = {"states": r["evaluations"], "transitions": ntrans, "traces_validated_against_impl": r["evaluations"],
            "evaluations": r["evaluations"], "distinct_nontrivial": r["distinct_nontrivial"], "samples": r["samples"], "exhaustive": True,
            "rule": "epochs {0,1,2,3} x train batches {1,2,3} x validation loader {None,1,2 batches} x evaluator {None, binary, multi-class, "
-                   "categorical, multi-class with user epoch/step callbacks} (matching head/loss) x callbacks {none, both, both and leaving the model in the opposite mode} x initial model mode {train, eval, train with BatchNorm switched to eval, eval with Dropout switched to train}; model = Linear+BatchNorm1d+"
+                   "categorical, multi-class with user epoch/step callbacks} (matching head/loss) x callbacks {none, both, both and leaving the model in the opposite mode, both and reading one batch of the loader they are handed} x initial model mode {train, eval, train with BatchNorm switched to eval, eval with Dropout switched to train}; model = Linear+BatchNorm1d+"
                    "Dropout+Linear; every optimizer.zero_grad/step, model.forward, criterion and backward call is recorded with model.training "
                    "(all submodules) and the probed grad mode and matched against the automaton (forward, loss, zero_grad, backward, step)* "
                    "per batch, eval/no-grad/no-state-change validation, history keys and lengths, epoch loss = mean of batch losses, accuracy "
